@@ -262,9 +262,15 @@ class GenericContextRegistry(
         except Exception:
             # A failed activation (e.g. an invalid redefinition) changes nothing:
             # drop the half-built overlay and restore the previous stack.
-            key = self._active_ctx.hashable()
-            self._caches.pop(key, None)
-            self._context_units.pop(key, None)
+            try:
+                key = self._active_ctx.hashable()
+            except TypeError:
+                # the stack cannot even be keyed (unhashable parameter values):
+                # nothing was stored for it
+                pass
+            else:
+                self._caches.pop(key, None)
+                self._context_units.pop(key, None)
             self._active_ctx.remove_contexts(len(contexts))
             self._switch_context_cache_and_units()
             raise
